@@ -598,22 +598,21 @@ where
     }
 }
 
-impl<K, V> Drop for SkipList<K, V> {
+// The nodes belong to the shared inner state: they are freed when its last owner goes away.
+// (Freeing them from SkipList::drop after `Arc::try_unwrap(self.inner.clone())` never happened:
+// the clone itself keeps the count above one, so every sorted set leaked all its nodes.)
+impl<K, V> Drop for SkipListInner<K, V> {
     fn drop(&mut self) {
-        if let Ok(inner) = Arc::try_unwrap(self.inner.clone()) {
-            let inner = inner.into_inner().unwrap();
-            
-            // Deallocate all nodes
-            unsafe {
-                let current = inner.head;
-                while let Some(next) = (&(*current).forward)[0] {
-                    (&mut (*current).forward)[0] = (&(*next).forward)[0];
-                    let _ = Box::from_raw(next);
-                }
-                
-                // Deallocate head
-                let _ = Box::from_raw(inner.head);
+        // Deallocate all nodes
+        unsafe {
+            let current = self.head;
+            while let Some(next) = (&(*current).forward)[0] {
+                (&mut (*current).forward)[0] = (&(*next).forward)[0];
+                let _ = Box::from_raw(next);
             }
+            
+            // Deallocate head
+            let _ = Box::from_raw(self.head);
         }
     }
 }
